@@ -110,17 +110,21 @@ Definition is_self_ty (t : ty) : bool :=
   | _ => false
   end.
 
+(** directly after `&` / `*const` / `*mut` a bare trait object with several bounds needs parentheses (`&(dyn A + B)`) *)
+Definition after_amp (to : ty) : ty :=
+  match to with TyDyn (_ :: _ :: _) => TyParen to | _ => to end.
+
 Fixpoint expand_self_ty (to : ty) (t : ty) : ty :=
   if is_self_ty t then to else
   match t with
   | TyPath q lead segs =>
       TyPath (match q with Some (qt, n) => Some (expand_self_ty to qt, n) | None => None end)
              lead (map (expand_self_seg to) segs)
-  | TyRef lt mt t => TyRef lt mt (expand_self_ty to t)
+  | TyRef lt mt t => TyRef lt mt (if is_self_ty t then after_amp to else expand_self_ty to t)
   | TyTuple ts => TyTuple (map (expand_self_ty to) ts)
   | TyArray t len => TyArray (expand_self_ty to t) len
   | TySlice t => TySlice (expand_self_ty to t)
-  | TyPtr mt t => TyPtr mt (expand_self_ty to t)
+  | TyPtr mt t => TyPtr mt (if is_self_ty t then after_amp to else expand_self_ty to t)
   | TyFn args ret =>
       TyFn (map (expand_self_ty to) args)
            (match ret with Some r => Some (expand_self_ty to r) | None => None end)
